@@ -39,7 +39,7 @@ type Page struct {
 	Blank  bool
 	Rot    int
 	Media  Rect
-	Crop   Rect // effective (defaults to Media)
+	Crop   Rect            // effective (defaults to Media)
 	Extra  map[string]Rect // explicit TrimBox / BleedBox / ArtBox
 	Fonts  []string        // truth: fonts the content uses; observed: fonts in the effective resources
 	// Inh: attribute name (rotate, mediabox, cropbox, resources) -> the input page inherits it from a page tree node
